@@ -276,11 +276,28 @@ func (r *Run) eval(e *Env, x *SX) *Val {
 			key = "arg:" + key
 		}
 		res, ok := e.st.calls[key]
+		if !ok && k == "0" && h == "callarg" {
+			n := 0
+			for k2, v := range e.st.calls {
+				if !strings.HasPrefix(k2, "arg:") {
+					continue
+				}
+				if i := strings.LastIndex(k2, ":"+args[0].Atom+"#"); i >= 0 && !strings.Contains(k2[i+1:], ":") {
+					res, n = v, n+1
+				}
+			}
+			if ok = n == 1; !ok {
+				res = nil
+			}
+		}
 		if !ok && k == "0" && h != "callarg" {
 			// the call may have moved into a helper that is verified inlined: if exactly one call of that callee was made inside
 			// helpers on this path, that is the one
 			n := 0
 			for k2, v := range e.st.calls {
+				if strings.HasPrefix(k2, "arg:") {
+					continue // argument records of (callarg ...) live in the same map
+				}
 				if i := strings.LastIndex(k2, ":"+args[0].Atom+"#"); i >= 0 && !strings.Contains(k2[i+1:], ":") {
 					res, n = v, n+1
 				}
